@@ -552,6 +552,10 @@ impl Check for C07 {
             None
         };
         let n = pair.map_or(n, |(nn, _)| nn);
+        // nearly full tournaments of middle-sized populations (a sampler may switch to drawing the few individuals
+        // that sit out): k = n - 0..=12
+        let near_full = run % 64 == 7;
+        let n = if near_full { g.log_uniform(40, 2500) } else { n };
         let spread = if n > 14 && g.coin() { g.range(1, n as u64) as i32 } else { g.range(1, 4) as i32 };
         let mut vals: Vec<i32> = (0..n).map(|_| g.range(0, spread as u64) as i32).collect();
         if n >= 1000 && g.coin() {
@@ -583,6 +587,7 @@ impl Check for C07 {
         };
         let which = match pair {
             Some((_, k)) => Which::Tournament(k),
+            None if near_full => Which::Tournament(n - g.urange(0, 12)),
             None => which,
         };
         Sc::One { vals, which, rng: RngSpec::swarm(g) }
